@@ -2,12 +2,9 @@
     environment, cyclic imports are detected.  BOUNDED statements: all import graphs over 3 library
     names (each library absent, or importing any list of distinct libraries among the 3, itself
     included, in any order: 17^3 = 4913 worlds) x all histories of 3 top-level imports, by vm_compute.
-    The unbounded statements (induction over fuel with the invariant "a module has an environment iff
-    its body has been evaluated exactly once; a module whose meta data is the error form has no
-    environment") are NOT proved:
-      load_once : forall d reqs fuel l, body_evals (fst (run_history fuel d init_state reqs)) l <= 1.
-      cyclic_import_detected : forall d l fuel, fuel > length d ->
-          (snd (load_module fuel d init_state l) = Done <-> loadable fuel d [] l = true). *)
+    The unbounded counterparts are proved elsewhere: load_once, env_stable (LoadInv.v), cyclic_import_detected
+    (LoadCycle.v), missing_import_detected (LoadMissing.v), loadable_loads (LoadLive.v).  What only this bounded
+    sweep shows: the exact "iff" with [loadable] in one statement, stickiness of a failure, no OutOfFuel with fuel 6. *)
 From Coq Require Import List Bool Arith Lia.
 From ChibiV Require Import C14.Load.
 Import ListNotations.
